@@ -56,6 +56,20 @@ def gen_case(rng, ltype, k):
     pl = []
     for _ in range(rng.choice([1, 2, 3, 4])):
         pl.append([rng.choice(NAMES), rng.uniform(0.5, 2.5), rng.uniform(0.05, 0.6)])
+    if k % 5 == 3 and ltype in lc.SCALING_TYPES:
+        # the kinematic scaling tabulated over the lens' OWN slope (as the posterior-processing classes emit it), a prior on
+        # that slope, and a sampled slope beyond the tabulated axis (the sampler's box is independent of the grid; the 1-d
+        # scaling extrapolates): the prior is on the slope the lens realises
+        for key in ("kin_scaling_param_list", "j_kin_scaling_param_axes", "j_kin_scaling_grid_list", "gamma_pl_global_sampling",
+                    "gamma_pl_global_dist"):
+            cfg.pop(key, None)
+        nbin = len(data["sigma_v_measurement"]) if ltype in lc.KIN_TYPES else 1
+        axis = np.linspace(1.8, 2.2, rng.choice([3, 5]))
+        cfg.update(kin_scaling_param_list=["gamma_pl"], j_kin_scaling_param_axes=axis,
+                   j_kin_scaling_grid_list=[np.array([rng.uniform(0.8, 1.25) for _ in axis]) for _ in range(nbin)], gamma_pl_index=1)
+        cfg["anisotropy_sampling"] = False
+        h["kwargs_lens"]["gamma_pl_list"] = [2.0, rng.choice([2.26, 2.4, 1.7, 1.75, 2.05]), 1.9]
+        pl.append(["gamma_pl", rng.uniform(1.9, 2.1), rng.uniform(0.03, 0.1)])
     if k % 4 == 1:
         # realised values that are exactly zero (isotropic orbits, gamma_ppn = 0) are values like any other
         h["kwargs_lens"]["gamma_ppn"] = 0.0
